@@ -399,16 +399,25 @@ fn execute(sc: &DScenario) -> RunOutcome {
 fn intact(i: &PlanarInterface<F>) -> bool {
     let rho = i.profile.density.to_reduced().sum_axis(Axis(0));
     let n = rho.len();
-    let ns = i.profile.density.to_reduced().shape()[0] as f64;
-    // (segment densities summed: compare with the summed bulk values)
+    // summed segment densities of the two bulk phases
+    let ci = i.profile.dft.component_index();
+    let seg = |s: &State<F>| -> f64 {
+        let pd = s.partial_density.to_reduced();
+        ci.iter().map(|&c| pd[c]).sum()
+    };
+    let (rl, rv) = (seg(i.vle.liquid()), seg(i.vle.vapor()));
     let (a, b) = (rho[0], rho[n - 1]);
-    let mid = 0.5 * (a + b);
-    let _ = ns;
+    // both bulk phases are still in the box (a profile whose interface has left the box is uniform:
+    // a legitimate stationary point with zero surface tension) ...
+    let ends_ok = ((a - rl).abs() < 0.01 * rl && (b - rv).abs() < 0.01 * rl) || ((b - rl).abs() < 0.01 * rl && (a - rv).abs() < 0.01 * rl);
+    if !ends_ok {
+        return false;
+    }
+    // ... with exactly one interface, inside the middle half
+    let mid = 0.5 * (rl + rv);
     let crossings = rho.iter().zip(rho.iter().skip(1)).filter(|(x, y)| (**x - mid) * (**y - mid) < 0.0).count();
     let k = rho.iter().position(|r| (*r - mid) * (a - mid) < 0.0).unwrap_or(0);
-    // the two ends are flat (bulk phases reached) and there is exactly one interface in the middle half
-    let flat = |u: f64, v: f64| (u - v).abs() <= 1e-3 * (a - b).abs();
-    (a - b).abs() > 0.0 && flat(rho[0], rho[n / 16]) && flat(rho[n - 1], rho[n - 1 - n / 16]) && crossings == 1 && k > n / 4 && k < 3 * n / 4
+    crossings == 1 && k > n / 4 && k < 3 * n / 4
 }
 
 impl Engine for C18Driver {
